@@ -109,6 +109,11 @@ func (s *sim) check09(x tuple, ctx string) {
 	forced := ""
 	bad := func(rule string, format string, args ...interface{}) {
 		key := s.cur[x.id()]
+		if !damaging(key) {
+			// only a deviation that damages the stored representation can
+			// explain an inconsistency between counting and enumerating
+			key = ""
+		}
 		if forced != "" {
 			key = forced
 		}
